@@ -565,7 +565,11 @@ def run_c19(tier, seed, replay=None):
             if has(t, ("grp",)) and not has(t, ("nbref",)):
                 modes += ["named", "pnamed"]
                 if has(t, ("bref",)):
-                    modes += ["rel", "relmix"]
+                    modes += ["rel"]
+                    # mixed named / unnamed groups: a numbered condition would be rejected (NamedBackrefOnly), so
+                    # only trees whose references are all back-references take this spelling
+                    if not has(t, ("condg", "condg0")):
+                        modes += ["relmix"]
             if has(t, ("flag",)):
                 modes += ["flag"]
             if has(t, ("rep",)):
